@@ -151,6 +151,19 @@ def name_failure(events, consumed, relax=()):
                 break
         if done or not progressed:
             break
+    if done:
+        # keep only the relaxations TLC needs (a WEAK mark of the first pass may stem from a branch that was
+        # not the only way): drop each one in turn and let TLC decide again
+        for x in list(relax):
+            if len(relax) == 1:
+                break
+            trial = [y for y in relax if y != x]
+            if x == "watch-order":
+                trial = [y for y in trial if y != "watch-done"]
+            r3, acc3, _, _ = run_tlc(events, relax=trial)
+            states += r3.distinct
+            if h in acc3:
+                relax = trial
     preds = [PRED[x] for x in relax if not (x == "watch-done" and "watch-order" in relax)]
     last_kind = None
     if not done:
@@ -245,6 +258,8 @@ def contended(events):
     return False
 
 
+SCENARIOS = [("store", "restore-stale"), ("raft", "restore-stale"), ("store", "restore-window"), ("store", "publish-gap")]
+
 PLAN = {
     # (backend, histories, ops per history)
     "quick": {"mc": (3, 1), "runs": [("inmem", 14, 60), ("store", 16, 64), ("raft", 8, 56)], "batch": 8, "par": 4},
@@ -293,6 +308,22 @@ def run(tier):
                 tot["max_pending"] = max(tot["max_pending"], stx["max_pending"])
                 for k, v in stx["classes"].items():
                     tot["classes"][k] = tot["classes"].get(k, 0) + v
+
+        # ---- deterministic sequential scripts (the minimal replays of the repaired findings and of restore windows)
+        for si, (sb, sc) in enumerate(SCENARIOS):
+            out = os.path.join(work, "scenario-%d.ndjson" % si)
+            p = vf.run_harness(binary, ["-backend", sb, "-scenario", sc, "-first", str(900000 + si), "-out", out], timeout=600,
+                               env={"GORACE": "exitcode=66"})
+            if "DATA RACE" in p.stderr or p.returncode == 66:
+                raise vf.Infra("race detector report in scenario %s/%s:\n%s" % (sb, sc, p.stderr[:6000]))
+            if p.returncode != 0:
+                raise vf.Infra("h-res scenario %s/%s failed rc=%d: %s" % (sb, sc, p.returncode, p.stderr[-2000:]))
+            stx = json.loads(p.stdout.strip().splitlines()[-1])
+            for k in ("histories", "events", "ops", "watch_events", "watches", "restores", "stalls"):
+                tot[k] += stx[k]
+            with open(os.path.join(work, "scenarios.ndjson"), "a") as f:
+                f.write(open(out).read())
+        files.append((os.path.join(work, "scenarios.ndjson"), "scenarios"))
 
         # ---- TLC decides every history
         n_acc = n_cont = states = 0
@@ -354,7 +385,7 @@ def run(tier):
 
         # ---- results outside the modelled alphabet are not judged (never a violation)
         allowed_err = {"write": {"cas", "uid"}, "delete": {"cas"}, "read": {"notfound", "inconsistent"}, "list": {"inconsistent"},
-                       "listowner": set(), "snapshot": set(), "restore": set()}
+                       "listowner": set(), "snapshot": set(), "restore": set(), "rbegin": set()}
         odd = [k for k in tot["classes"] if "/err:" in k and k.split("/err:")[1] not in allowed_err.get(k.split("/")[0], set())]
         if odd:
             raise vf.Infra("calls returned error classes the specification does not model: %s" % odd)
